@@ -1,7 +1,7 @@
 INIT Init
 NEXT Next
 CONSTANTS
-  OrdKinds = {"A", "B", "R", "U"}
+  OrdKinds = {"A", "B", "R", "U", "Z"}
   MaxOps = 7
 VIEW core
 ACTION_CONSTRAINT Emit
